@@ -102,7 +102,14 @@ def render(mod: Any) -> str:
             L.append('import %s%s' % (st[1], ' as %s' % st[2] if st[2] else ''))
         elif k == 'from':
             names = ', '.join(o if not a else '%s as %s' % (o, a) for o, a in st[3])
-            L.append('from %s%s import %s' % ('.' * st[1], st[2], names))
+            if len(st) > 4 and st[4]:
+                # optional accelerator pattern: the module is not part of the sources
+                L.append('try:')
+                L.append('    from %s%s import %s' % ('.' * st[1], st[2], names))
+                L.append('except ImportError:')
+                L.append('    pass')
+            else:
+                L.append('from %s%s import %s' % ('.' * st[1], st[2], names))
         elif k == 'star':
             L.append('from %s%s import *' % ('.' * st[1], st[2]))
         elif k == 'all':
@@ -341,6 +348,8 @@ def bound_names(mod: Any) -> List[str]:
         elif k == 'import':
             out.append(st[2] if st[2] else st[1].split('.')[0])
         elif k == 'from':
+            if len(st) > 4 and st[4]:
+                continue           # inside try/except ImportError, module not in the sources: binds nothing in Python
             out.extend(a if a else o for o, a in st[3])
     return out
 
@@ -403,6 +412,8 @@ def binding_of(case: Any, fn: List[str], mi: int, name: str, depth: int = 0) -> 
                 tgt = st[1] if st[2] else st[1].split('.')[0]
                 res = ('import', ('mod', idx[tgt]) if tgt in idx else ('ext', tgt))
         elif k == 'from':
+            if len(st) > 4 and st[4]:
+                continue
             t = abs_modname(case, fn, mi, st[1], st[2])
             for o, a in st[3]:
                 if (a if a else o) == name:
@@ -475,8 +486,11 @@ def cls(name: str, bases: Sequence[str] = (), members: Sequence[Any] = (), doc: 
     return ['class', name, ('doc of %s' % name) if doc == '' else doc, list(bases), [list(m) for m in members]]
 
 
-def frm(mod: str, *names: Any, level: int = 0) -> Any:
-    return ['from', level, mod, [[n, None] if isinstance(n, str) else list(n) for n in names]]
+def frm(mod: str, *names: Any, level: int = 0, optional: bool = False) -> Any:
+    st = ['from', level, mod, [[n, None] if isinstance(n, str) else list(n) for n in names]]
+    if optional:
+        st.append(True)
+    return st
 
 
 def corpus() -> List[Tuple[str, Any]]:
@@ -565,6 +579,32 @@ def corpus() -> List[Tuple[str, Any]]:
         M('d', [frm('r', 'helper'), cls('X')]),
         M('r', [frm('d', 'X'), ['def', 'helper', None], ['all', ['X']]]),
         M('u', [frm('r', 'X'), cls('U', ['X'])])], 'queries': []}))
+    # the defining module also binds the re-exported name by an optional import (accelerator fallback pattern)
+    out.append(('reexport-optional-accelerator', {'mods': [
+        M('pkg', [frm('_impl', 'Thing', level=1), ['all', ['Thing']]], pkg=True),
+        M('_impl', [cls('Thing', members=[[0, 'method', 'doc method']]), frm('_speedups', 'Thing', level=1, optional=True),
+                    ['def', 'make', 'returns a L{Thing}']], parent=0),
+        M('app', [frm('pkg', '_impl'), ['import', 'pkg._impl', None],
+                  cls('Sub', ['_impl.Thing'], doc='old L{pkg._impl.Thing} L{pkg._impl.Thing.method} new L{pkg.Thing}'),
+                  cls('Sub2', ['pkg._impl.Thing'], doc=None)])],
+        'queries': [['app', 'pkg._impl.Thing'], ['app', '_impl.Thing'], ['app', 'pkg._impl.Thing.method'], ['app', 'pkg.Thing'],
+                    ['app.Sub', '_impl.Thing.method']]}))
+    # the re-export runs while the defining module is still on the processing stack: the defining module imports its
+    # own package at the bottom, and a root module that imports from the defining module is listed first
+    out.append(('reexport-mid-defining-module', {'mods': [
+        M('app', [frm('pkg._impl', 'make'), ['import', 'pkg._impl', None],
+                  cls('Sub', ['pkg._impl.Thing'], doc='old L{pkg._impl.Thing} L{pkg._impl.make} new L{pkg.Thing} L{pkg.make}')]),
+        M('pkg', [frm('_impl', 'Thing', 'make', level=1), ['all', ['Thing', 'make']]], pkg=True, doc='The package.'),
+        M('_impl', [cls('Thing', members=[[0, 'method', 'doc method']]), ['def', 'make', 'makes a L{Thing}'],
+                    frm('', '_util', level=1)], parent=1),
+        M('_util', [['def', 'helper', 'doc helper']], parent=1)],
+        'queries': [['app', 'pkg._impl.Thing'], ['app', 'pkg._impl.Thing.method'], ['app', 'pkg.Thing'], ['app', 'pkg.make'],
+                    ['app', 'pkg._impl.make']]}))
+    # re-exporting a root module: reported, not moved
+    out.append(('reexport-root-module', {'mods': [
+        M('a', [['import', 'b', None]]),
+        M('b', [cls('B')]),
+        M('c', [frm('a', 'b'), ['all', ['b']], cls('C', ['b.B'])])], 'queries': [['c', 'b.B'], ['c', 'b']]}))
     # star import inside a cycle
     out.append(('star-in-cycle', {'mods': [
         M('a', [cls('A0'), ['star', 0, 'b'], cls('A1', ['B0'])]),
@@ -966,6 +1006,29 @@ def raw_cases() -> List[Any]:
                                                         [('run', 'Base.run')], ['stop']), nested))
         out.append(proj(tag + 'plain-import-as', raw_app(['import %s.base as b' % pk], ['b.Base'],
                                                        [('run', 'b.Base.run')], ['stop']), nested))
+    # exception hierarchies spread over modules reached through plain imports and dotted base expressions
+    def exc_proj(label: str, root_last: bool) -> Any:
+        mods = [{'name': 'pkg', 'parent': None, 'pkg': True, 'doc': None, 'stmts': [], 'src': ''},
+                {'name': 'errors', 'parent': 0, 'pkg': False, 'doc': None, 'stmts': [],
+                 'src': 'class BaseError(Exception):\n    "Base of all errors."\nclass InputError(BaseError, ValueError):\n    "Bad input."\n'},
+                {'name': 'handlers', 'parent': 0, 'pkg': False, 'doc': None, 'stmts': [],
+                 'src': 'import pkg.errors\nclass HandlerError(pkg.errors.BaseError):\n    "A handler failed."\n'
+                        'class DeepHandlerError(HandlerError):\n    "A nested handler failed."\n'},
+                {'name': 'tools', 'parent': 0, 'pkg': False, 'doc': None, 'stmts': [],
+                 'src': 'from pkg import errors\nimport pkg.handlers as h\nclass ToolError(errors.BaseError):\n    "A tool failed."\n'
+                        'class DeepToolError(h.DeepHandlerError):\n    "Three levels."\nclass NotAnError:\n    "Just a class."\n'}]
+        cli = {'name': 'cli', 'parent': None, 'pkg': False, 'doc': None, 'stmts': [],
+               'src': 'import pkg.tools\nimport pkg.errors as e\nclass CliError(pkg.tools.DeepToolError):\n    "Four levels."\n'
+                      'class UsageError(e.InputError):\n    "Usage."\nclass Plain(pkg.tools.NotAnError):\n    "Plain."\n'}
+        if root_last:
+            mods.append(cli)
+        else:
+            mods = [cli] + mods
+            for m in mods[2:]:
+                m['parent'] = 1
+        return {'mods': mods, 'queries': [], 'raw': True, 'label': 'raw/' + label}
+    out.append(exc_proj('exceptions-root-last', True))
+    out.append(exc_proj('exceptions-root-first', False))
     out.append(proj('from-package-as-late-class', 'from pkg import other as o\n' +
                     raw_app(['from pkg import base as b'], ['b.Base', 'o.Mixin'], [('stop', 'b.Base.stop')], ['run', 'ping'])))
     return out
